@@ -6,6 +6,8 @@ import (
 	"fmt"
 	"strings"
 	"unicode/utf8"
+
+	"github.com/relex/slog-agent/defs"
 )
 
 func lit(s string) TPart   { return TPart{Lit: s} }
@@ -51,13 +53,13 @@ func (e *enumerator) addFields() {
 		one(add(Pair{"tag", Tmpl{v("tag"), v("msg")}}, Pair{"aux", Tmpl{v("aux"), v("lvl")}})),
 		one(add(Pair{"tag", Tmpl{lit("A")}}, Pair{"aux", Tmpl{lit("B")}}, Pair{"lvl", Tmpl{lit("C")}})),
 		// expected to be rejected by the real configuration path (counted, not run)
-		one(add(Pair{"tag", Tmpl{lit("5$")}})),
-		one(add(Pair{"tag", Tmpl{lit("$$")}})),
-		one(add(Pair{"tag", Tmpl{lit("${msg")}})),
-		one(add(Pair{"tag", Tmpl{lit("${msg[a:b]}")}})),
-		one(add(Pair{"nosuch", Tmpl{lit("x")}})),
-		one(add(Pair{"tag", Tmpl{lit("$nosuch")}})),
-		one(add()),
+		e.bad(add(Pair{"tag", Tmpl{lit("5$")}})),
+		e.bad(add(Pair{"tag", Tmpl{lit("$$")}})),
+		e.bad(add(Pair{"tag", Tmpl{lit("${msg")}})),
+		e.bad(add(Pair{"tag", Tmpl{lit("${msg[a:b]}")}})),
+		e.bad(add(Pair{"nosuch", Tmpl{lit("x")}})),
+		e.bad(add(Pair{"tag", Tmpl{lit("$nosuch")}})),
+		e.bad(add()),
 	)
 	var vals []*Rec
 	for _, msg := range []string{"", "a", "ab", "abcde", "abcdef", "héé"} {
@@ -68,6 +70,15 @@ func (e *enumerator) addFields() {
 		}
 	}
 	e.leafGroup("leaf/addFields", configs, func([]*Step) []*Rec { return vals })
+
+	// The same menu once more with the capacity of the per-instance scratch buffer (defs.InputLogMaxMessageBytes, read by
+	// NewTransform) scaled down to 8 bytes: expansions of 7 / 8 / 9 and more bytes sit exactly at, and beyond, the
+	// preallocated capacity (the unscaled crossing is in group long/addFields). Cases run synchronously inside Case, so
+	// the variable holds for exactly these cases (also on replay).
+	saved := defs.InputLogMaxMessageBytes
+	defs.InputLogMaxMessageBytes = 8
+	e.leafGroup("leaf/addFields[cap8]", configs, func([]*Step) []*Rec { return vals })
+	defs.InputLogMaxMessageBytes = saved
 }
 
 // ---------------------------------------------------------------------------------------------------------------------
@@ -84,10 +95,10 @@ func (e *enumerator) truncate() {
 		}
 	}
 	configs = append(configs,
-		one(&Step{K: KTrunc, Key: "msg", MaxLen: 0, Suffix: "."}),
-		one(&Step{K: KTrunc, Key: "msg", MaxLen: -1, Suffix: "."}),
-		one(&Step{K: KTrunc, Key: "msg", MaxLen: 3, Suffix: ""}),
-		one(&Step{K: KTrunc, Key: "nosuch", MaxLen: 3, Suffix: "."}),
+		e.bad(&Step{K: KTrunc, Key: "msg", MaxLen: 0, Suffix: "."}),
+		e.bad(&Step{K: KTrunc, Key: "msg", MaxLen: -1, Suffix: "."}),
+		e.bad(&Step{K: KTrunc, Key: "msg", MaxLen: 3, Suffix: ""}),
+		e.bad(&Step{K: KTrunc, Key: "nosuch", MaxLen: 3, Suffix: "."}),
 	)
 	var texts []string
 	ascii := "abcdefghijklmnopqrst"
@@ -149,25 +160,48 @@ func checkTruncateLoose(s *Step, in, out *Rec, dropped bool) string {
 
 // ---------------------------------------------------------------------------------------------------------------------
 
+// filler returns n bytes that all belong to the class (per the reference reading of the class), cycling through its
+// printable members in a fixed order of preference (letters first, so that members differ from the boundaries).
 func filler(class string, n int) string {
-	src := "abcdefghijklmnopqrstuvwxyz"
-	if class == "[0-9a-f-]" {
-		src = "abcdef0123456789"
+	const preferred = "abcdefghijklmnopqrstuvwxyz0123456789ABCXYZ_-*"
+	var src []byte
+	for i := 0; i < len(preferred); i++ {
+		if refClassHas(class, preferred[i]) {
+			src = append(src, preferred[i])
+		}
+	}
+	for c := byte(0x21); c < 0x7f && len(src) == 0; c++ {
+		if refClassHas(class, c) {
+			src = append(src, c)
+		}
+	}
+	if len(src) == 0 {
+		panic("filler: class without printable member: " + class)
 	}
 	var b strings.Builder
 	for b.Len() < n {
-		b.WriteString(src)
+		b.Write(src)
 	}
 	return b.String()[:n]
 }
 
+// extractClasses is the menu of target wildcards: any byte, plain ranges, negation, trailing / leading hyphen, several
+// ranges plus single characters, and the documented escapes (\] \[ \*) inside a class, plain and negated.
+func (e *enumerator) extractClasses() (base, extra []string) {
+	base = []string{"*", "[a-z]", "[^ ]", "[0-9a-f-]"}
+	extra = []string{`[^\]]`, `[a-z\]]`, "[^a-z]", "[-a-z]", "[a-zA-Z0-9_]", `[\*]`, `[^A-Zxmz-]`, `[\[\]]`}
+	return
+}
+
 func (e *enumerator) extractSpecial() {
 	bounds := []string{"", "[", "] - "}
-	classes := []string{"*", "[a-z]", "[^ ]", "[0-9a-f-]"}
+	classes, extraClasses := e.extractClasses()
 	maxLens := []int{1, 5, 100}
+	extraMaxLens := []int{5, 100}
 	if e.ctx.Thorough() {
 		bounds = []string{"", "[", "] - ", ":", "ab"}
 		maxLens = []int{1, 2, 4, 5, 6, 41, 100}
+		extraMaxLens = maxLens
 	}
 	for _, kind := range []Kind{KHead, KTail} {
 		var configs [][]*Step
@@ -180,14 +214,37 @@ func (e *enumerator) extractSpecial() {
 				}
 			}
 		}
+		for _, l := range bounds {
+			for _, c := range extraClasses {
+				for _, r := range bounds {
+					for _, m := range extraMaxLens {
+						configs = append(configs, one(&Step{K: kind, Key: "msg", Dest: "tag", Left: l, Class: c, Right: r, MaxLen: m}))
+					}
+				}
+			}
+		}
 		configs = append(configs,
-			one(&Step{K: kind, Key: "msg", Dest: "tag", Left: "[", Class: "*", Right: "]", MaxLen: 0}),
-			one(&Step{K: kind, Key: "msg", Dest: "tag", Left: "abc", Class: "", Right: "", MaxLen: 10}),
-			one(&Step{K: kind, Key: "msg", Dest: "tag", Left: "", Class: "[a-z", Right: "", MaxLen: 10}),
-			one(&Step{K: kind, Key: "nosuch", Dest: "tag", Left: "[", Class: "*", Right: "]", MaxLen: 10}),
-			one(&Step{K: kind, Key: "msg", Dest: "nosuch", Left: "[", Class: "*", Right: "]", MaxLen: 10}),
+			e.bad(&Step{K: kind, Key: "msg", Dest: "tag", Left: "[", Class: "*", Right: "]", MaxLen: 0}),
+			e.bad(&Step{K: kind, Key: "msg", Dest: "tag", Left: "abc", Class: "", Right: "", MaxLen: 10}),
+			e.bad(&Step{K: kind, Key: "msg", Dest: "tag", Left: "", Class: "[a-z", Right: "", MaxLen: 10}),
+			e.bad(&Step{K: kind, Key: "nosuch", Dest: "tag", Left: "[", Class: "*", Right: "]", MaxLen: 10}),
+			e.bad(&Step{K: kind, Key: "msg", Dest: "nosuch", Left: "[", Class: "*", Right: "]", MaxLen: 10}),
 		)
 		e.leafGroup("leaf/"+kind.String(), configs, extractValues)
+
+		// all roles on one field: key == destKey is a configuration the loader accepts ("replace the field by its own
+		// label"); the destination is written with the label (see Assumptions). Own group and key scope.
+		var same [][]*Step
+		for _, l := range bounds {
+			for _, c := range append(append([]string{}, classes...), extraClasses[0]) {
+				for _, r := range bounds {
+					for _, m := range []int{5, 100} {
+						same = append(same, one(&Step{K: kind, Key: "msg", Dest: "msg", Left: l, Class: c, Right: r, MaxLen: m}))
+					}
+				}
+			}
+		}
+		e.leafGroup("leaf/"+kind.String()+"[key=destKey]", same, extractValues)
 	}
 }
 
@@ -200,6 +257,8 @@ func extractValues(prog []*Step) []*Rec {
 		far = s.Left
 	}
 	labels := []string{"", "a", "abc", "a c", " ab ", " ", "   ", "\t", "A1", "0af-9", "é", "ab]", "[x"}
+	// edge bytes the trimming rule and the class escapes distinguish (all 256 byte values at the edges: groups bytes/*)
+	edgeLabels := []string{"\x01a\x1f", "\x00", "a\u00a0", "\u2003a", "\na\r", "\x7fa\x7f", `C:\tmp\job`, "a]b", "a*b", "a_B", `\`}
 	if far != "" {
 		for _, n := range []int{s.MaxLen - len(far) - 1, s.MaxLen - len(far), s.MaxLen - len(far) + 1, s.MaxLen - 1, s.MaxLen, s.MaxLen + 1} {
 			if n > 0 {
@@ -223,6 +282,15 @@ func extractValues(prog []*Step) []*Rec {
 			}
 		}
 	}
+	for _, l := range edgeLabels {
+		for _, r := range []string{"", "rest"} {
+			if head {
+				texts = append(texts, s.Left+l+s.Right+r)
+			} else {
+				texts = append(texts, r+s.Left+l+s.Right)
+			}
+		}
+	}
 	texts = append(texts, "", "zzz", "    ", s.Left, s.Right, s.Left+s.Right, s.Left+"abc", "abc"+s.Right, "x"+s.Left+"abc"+s.Right+"rest", "rest"+s.Left+"abc"+s.Right+"x")
 	var vals []*Rec
 	for _, t := range texts {
@@ -239,12 +307,12 @@ func (e *enumerator) drop() {
 	configs := [][]*Step{
 		one(&Step{K: KDrop, M: m1, Pct: 100, Label: "gone"}),
 		one(&Step{K: KDrop, M: m2, Pct: 100, Label: "gone"}),
-		one(&Step{K: KDrop, M: m1, Pct: 0, Label: "gone"}),
-		one(&Step{K: KDrop, M: m1, Pct: 101, Label: "gone"}),
-		one(&Step{K: KDrop, M: m1, Pct: -1, Label: "gone"}),
-		one(&Step{K: KDrop, M: m1, Pct: 100, Label: ""}),
-		one(&Step{K: KDrop, M: Match{}, Pct: 100, Label: "gone"}),
-		one(&Step{K: KDrop, M: Match{{Field: "nosuch", Op: "", Arg: "a"}}, Pct: 100, Label: "gone"}),
+		e.bad(&Step{K: KDrop, M: m1, Pct: 0, Label: "gone"}),
+		e.bad(&Step{K: KDrop, M: m1, Pct: 101, Label: "gone"}),
+		e.bad(&Step{K: KDrop, M: m1, Pct: -1, Label: "gone"}),
+		e.bad(&Step{K: KDrop, M: m1, Pct: 100, Label: ""}),
+		e.bad(&Step{K: KDrop, M: Match{}, Pct: 100, Label: "gone"}),
+		e.bad(&Step{K: KDrop, M: Match{{Field: "nosuch", Op: "", Arg: "a"}}, Pct: 100, Label: "gone"}),
 	}
 	var vals []*Rec
 	for _, lvl := range []string{"a", "b", "", "aa"} {
